@@ -223,9 +223,10 @@ class VarBytesColumn(Column):
 
         def finish(self, doccount):
             dbfile = self._dbfile
+            # Fill first: filling can retype (replace) the growable arrays
+            self.fill(doccount)
             lengths = self._lengths.array
             offsets = self._offsets.array
-            self.fill(doccount)
 
             dbfile.write_array(lengths)
 
